@@ -28,7 +28,7 @@ ASSUMPTIONS = ["CPU generator only (no GPU in the sandbox)", "construction draws
 COUNTS = ("states = histories x seeds (each history is a distinct state: no merging); transitions = operations executed across the three runs; "
           "traces_validated_against_impl = histories whose three runs satisfied all comparisons")
 
-OPS = ["reinit", "fit_saver", "overwrite_space", "sample", "sample_one", "sample_init", "stats", "stats_one", "sysstats", "fit", "fit_neg", "grad", "exact", "rotate", "metric", "save", "apply"]
+OPS = ["reinit", "fit_saver", "fit_callbacks", "load_sample", "overwrite_space", "sample", "sample_one", "sample_init", "stats", "stats_one", "sysstats", "fit", "fit_neg", "grad", "exact", "rotate", "metric", "save", "apply"]
 READONLY = {"overwrite_space", "sample", "sample_one", "stats_one", "sample_init", "stats", "sysstats", "grad", "exact", "rotate", "metric", "save", "apply"}
 DATA = torch.tensor([[0.0, 1.0], [1.0, 1.0], [1.0, 0.0]], dtype=torch.double)
 BASES = np.array([list("ZZ"), list("XY"), list("YZ")])
@@ -36,7 +36,7 @@ BASES_FIT = np.array([list("ZZ"), list("XY"), list("ZZ")])
 
 
 def bound(tier):
-    return dict(operations=OPS, depth_all_seeds=2, depth_seed0=3 if tier == "quick" else 4, seeds=[0, 1, 1234, "VERIF_SEED"], kinds=["positive", "complex", "mixed"],
+    return dict(operations=OPS, depth_all_seeds=2, depth_seed0="3 (third operation from the 10 randomised / stateful ones)" if tier == "quick" else 4, seeds=[0, 1, 1234, "VERIF_SEED"], kinds=["positive", "complex", "mixed"],
                 thorough_note="depth 4 over the 8 randomised/stateful operations" if tier != "quick" else "",
                 fresh_process=dict(hash_seeds=HASHSEEDS[tier], script="fit (5 distinct bases in one batch) x2, sample, System.statistics, gradient, exact gradient"),
                 repeat_on_same_inputs=["sample", "Observable.statistics", "Observable.statistics:uneven", "System.statistics", "Observable.sample", "ObservableEvaluator"])
@@ -160,6 +160,29 @@ def do(op, st, tmp):
         sv = L.callbacks.ModelSaver(1, os.path.join(tmp, "sv"), "m{}.pt")
         st.fit(DATA, epochs=2, pos_batch_size=2, k=1, lr=0.1, callbacks=[sv], **kw)
         return st.sample(k=2, num_samples=8)
+    if op == "fit_callbacks":
+        # fresh evaluator / early-stopping objects in every run: nothing may carry over from an earlier run of the process
+        CB = L.callbacks
+        me = CB.MetricEvaluator(1, {"m": lambda s_, **kw_: float(sum(p.sum() for p in s_.rbm_am.parameters()))})
+        oe = CB.ObservableEvaluator(2, [O.SigmaZ()], num_samples=4, num_chains=2, burn_in=1, steps=1)
+        es = CB.EarlyStopping(1, 1e9, 2, me, "m", criterion="absolute")   # stops at the first epoch with 3 evaluations
+        eps = []
+        st.fit(DATA, epochs=5, pos_batch_size=2, k=1, lr=0.1, callbacks=[me, oe, es, CB.LambdaCallback(on_epoch_end=lambda s_, e: eps.append(e))], **kw)
+        st.stop_training = False
+        return [eps, len(me), [int(e) for e in me.epochs], len(oe), me.last, oe.last]
+    if op == "load_sample":
+        # a checkpoint written earlier by this library (fixed parameters), loaded AFTER seeding: what is drawn next is
+        # decided by the seed, not by anything stored in or restored from the file
+        fx = os.path.join(tmp, "fixed_%s.pt" % st.__class__.__name__)
+        if not os.path.exists(fx):
+            g = torch.get_rng_state()
+            torch.manual_seed(4242)
+            type(st)(2, gpu=False).save(fx)
+            torch.set_rng_state(g)
+        st.load(fx)
+        a_ = st.sample(k=2, num_samples=8)
+        b_ = type(st).autoload(fx, gpu=False).sample(k=1, num_samples=4)
+        return [a_, b_]
     if op == "overwrite_space":
         # the caller owns what generate_hilbert_space returned: advancing it in place is documented API
         own = st.generate_hilbert_space()
@@ -251,7 +274,7 @@ def check_history(acc, kind, hist, seed, tmp, flagged):
         flag(f"repro:raised:{e.kind}:{e.site}", e.tb)
         return
     acc.transitions += 3 * len(hist)
-    randomized = any(op in ("reinit", "fit_saver", "overwrite_space", "sample", "sample_one", "stats_one", "sample_init", "stats", "sysstats", "fit", "fit_neg") for op in hist)
+    randomized = any(op in ("reinit", "fit_saver", "fit_callbacks", "load_sample", "overwrite_space", "sample", "sample_one", "stats_one", "sample_init", "stats", "sysstats", "fit", "fit_neg") for op in hist)
     acc.ev(1, nontrivial=randomized)
     ok = True
     if a != b:
@@ -268,6 +291,11 @@ def check_history(acc, kind, hist, seed, tmp, flagged):
     elif a[0] == c[0]:
         flag("repro:different-seed-gives-identical-initial-parameters")
         ok = False
+    for j, op in enumerate(hist):
+        if op == "load_sample" and a[j + 1][0] == c[j + 1][0]:
+            flag("repro:different-seed-gives-identical-draws-after-loading-a-checkpoint")
+            ok = False
+            break
     # every weight tensor of every network is (re)drawn from the seeded stream: with another seed each of
     # them must come out different, after construction and after each reinitialisation
     for wa, wc in zip(drawn_a, drawn_c):
@@ -350,7 +378,7 @@ def run_item(item):
         # under some other seed, then seeded and reinitialised, must come out the same
         if first == "reinit":
             reinit_after_seeding(acc, kind, flagged)
-        third = OPS if tier == "quick" else OPS
+        third = ["reinit", "sample", "stats", "sysstats", "fit", "fit_callbacks", "load_sample", "grad", "metric", "save"] if tier == "quick" else OPS
         for b in OPS:
             for c in third:
                 check_history(acc, kind, (first, b, c), 0, tmp, flagged)
